@@ -45,7 +45,9 @@ from mc import common, par, report
 
 PID = "C18"
 
-ALPHABET = ["", "0", "1", "9", "-1", "a", "A", "b", "x", "0,1", "a, b", "0,,1", "foo bar"]
+# "\x1f": a typed line that consists of a control character (Unicode, but not ASCII, white space): an entry like any
+# other invalid one, not an empty line
+ALPHABET = ["", "0", "1", "9", "-1", "a", "A", "b", "x", "0,1", "a, b", "0,,1", "foo bar", "\x1f"]
 # VERIF_SEED rotates ONE extra answer into the alphabet (the core above is always covered)
 EXTRA_ANSWERS = ["2", "baz", "1,0", "B", "a,a"]
 CHOICE_LISTS = [
@@ -290,14 +292,17 @@ def ref_entry(cfg, entry):
     return (OPEN if open_ else VALID), alloweds
 
 
+_BLANKS = " \t\n\r\x0b\x0c"  # what a typed line is trimmed of: ASCII white space (the line is read as bytes)
+
+
 def effective(cfg, line):
-    s = line.strip()
+    s = line.strip(_BLANKS)
     return s if s != "" else cfg["default"]
 
 
 def kind_of(cfg, line):
     """Coarse class of a typed line, used in signatures only."""
-    s = line.strip()
+    s = line.strip(_BLANKS)
     if s == "":
         return "default" if cfg["default"] is not None else "empty"
     parts = [p.strip() for p in s.split(",")] if cfg["multi"] else [s]
@@ -606,7 +611,7 @@ def confirm_case(pattern, default, answer):
             return report.viol("confirm:nonterm:eof", "confirmation does not stop at end of input", case, "gives up", shown)
         return None
     pat = CONFIRM_DEFAULT_PATTERN if pattern is None else pattern
-    typed = answer.strip()
+    typed = answer.strip(_BLANKS)
     exp = default if typed == "" else (re.match(pat, typed) is not None)
     if obs["outcome"] != "return":
         return report.viol("confirm:no-answer", "confirmation %r default=%r answer %r did not return" % (pat, default, answer), case, exp, shown)
